@@ -28,6 +28,16 @@ CHECKS["C08"] = dict(
          "Sequential mode checked on dyadic data only (float32 threshold is exact there).",
     ref="6/C08")
 
+CHECKS["C16"] = dict(
+    technique="TLA+ counting definitions (Defs_Events) + TLC-enumerated event pairs/configurations replayed on the code + TLC trace validation (Val_C16)",
+    text="TLC enumerates all ordered pairs of 0/1 sequences of the cfg lengths under every (timestamps, taumax, lag) configuration, "
+         "3-column event matrices and thresholding inputs (Gen_C16); the static ES/ECA methods, event_series_analysis with all "
+         "symmetrisations/window types and make_event_matrix are replayed (also exchanged, shifted, rescaled) and TLC decides ESDef, "
+         "ECADef, Range01, Exchange, ShiftInv, ScaleInv, MatrixDef, Symmetrisation, ThresholdDef on the records.",
+    note="ES normalisation through a generated 1/sqrt table (trusted); dyadic timestamps only; an undefined rate (no admissible "
+         "event) is not compared; with an event-free series nan or the formula value are both accepted.",
+    ref="6/C16")
+
 NOT_APPLICABLE = {
     "C20": "memory safety of compiled kernels is a property of concrete addresses, not of abstract state a TLA+ "
            "specification maintains; nothing binds a PlusCal transcription of index arithmetic to the compiled code "
